@@ -82,7 +82,12 @@ def run(ctx):
                     ctx.oblige(key + "|decoded", dc.get("kind") == "int" and dc.get("width") == row["width"], "%s.%s is decoded as %s, specification width is %s" % (row["type"], row["field"], m["ty"], row["width"]), cfg=cfg)
         ctx.floor("limit rows", n, 31, cfg=cfg)
         # who may alter a value: custom decoders
-        documented = {(t, f): fn for t, f, fn in spec["lossy_members"]}
+        # the documented decoders are named by their role (today's names in the table): a renamed / moved private helper that
+        # still plays the role (C13 decides what each role does) is the same decoder
+        from . import c13
+        t_w, s_w = c13.names(F)[:2]
+        by_role = {"webauthn::deserialize_from_str_and_truncate": t_w, "webauthn::deserialize_from_str_and_skip_if_too_long": s_w}
+        documented = {(t, f): by_role.get(fn, fn) for t, f, fn in spec["lossy_members"]}
         found = {}
         for a in F.adts.values():
             if not a["local"] or a["kind"] != "struct":
